@@ -1,6 +1,9 @@
 package main
 
-import "fmt"
+import (
+	"fmt"
+	"time"
+)
 
 // Problem is a monitor verdict: FindingID is the class of failure.
 type Problem struct {
@@ -18,10 +21,12 @@ const halfMsNs = 500000
 // bounds earliness and demands service, it gives no upper bound on lateness, and a timer armed after
 // the clock was read is late by whatever the clock did in between.
 func monitor(evs []Ev) ([]Problem, []string) {
+	base := baseTime
+	clk := func(n int64) time.Time { return base.Add(time.Duration(n)) }
 	var accepted []string
 	type info struct {
 		key int
-		at  int64
+		at  time.Time // compared with time.Time.Before/After only: any scheduled time is legal
 	}
 	var out []Problem
 	add := func(id, format string, a ...any) { out = append(out, Problem{id, fmt.Sprintf(format, a...)}) }
@@ -49,7 +54,7 @@ func monitor(evs []Ev) ([]Problem, []string) {
 	for i, e := range evs {
 		switch e.Kind {
 		case "enq":
-			items[e.ID] = info{e.Key, e.At}
+			items[e.ID] = info{e.Key, e.AtT}
 			live[e.Key] = e.ID
 			lastEnqOut[e.ID] = e.Out
 		case "deq":
@@ -75,8 +80,8 @@ func monitor(evs []Ev) ([]Problem, []string) {
 				add("dequeued-or-replaced-item-ran", "event %d: id=%d (key %d) was popped although it had been dequeued or replaced", i, e.ID, it.key)
 			}
 			for _, oid := range live {
-				if items[oid].at < it.at {
-					add("out-of-order", "event %d: id=%d (at %d) popped while id=%d (at %d) was live", i, e.ID, it.at, oid, items[oid].at)
+				if items[oid].at.Before(it.at) {
+					add("out-of-order", "event %d: id=%d (at %s) popped while id=%d (at %s) was live", i, e.ID, it.at.UTC(), oid, items[oid].at.UTC())
 				}
 			}
 			if cur, ok := live[it.key]; ok && cur == e.ID {
@@ -98,8 +103,8 @@ func monitor(evs []Ev) ([]Problem, []string) {
 			if executed[e.ID] > 1 {
 				add("executed-twice", "event %d: callback for id=%d ran twice", i, e.ID)
 			}
-			if e.Now < it.at-halfMsNs {
-				add("executed-early", "event %d: id=%d scheduled at %d ran at clock %d", i, e.ID, it.at, e.Now)
+			if clk(e.Now).Before(it.at.Add(-halfMsNs)) {
+				add("executed-early", "event %d: id=%d scheduled at %s ran at clock %s", i, e.ID, it.at.UTC(), clk(e.Now))
 			}
 			if closeRet || closeRet2 {
 				add(afterClose(), "event %d: callback for id=%d started after a call to Close returned", i, e.ID)
@@ -135,21 +140,21 @@ func monitor(evs []Ev) ([]Problem, []string) {
 				continue
 			}
 			for _, lid := range live {
-				if items[lid].at <= e.Now && e.ID > 0 && e.P == "parked" && tmr.ok {
+				if !items[lid].at.After(clk(e.Now)) && e.ID > 0 && e.P == "parked" && tmr.ok {
 					// The loop is parked on a timer. If the clock advanced between the loop's Now() and its
 					// NewTimer() (lag > 0, observed directly: duration and creation time of the timer), the
 					// timer is late by exactly that much; the item is then served at the timer, not before.
 					// The lateness of the timer must not exceed the clock advance the harness itself observed
 					// between the hook just before the loop's Now() and the creation of the timer.
 					r := items[tmr.forID]
-					lag := tmr.created + tmr.dur - r.at
-					if lag > 0 && lag <= tmr.created-tmr.window && tmr.created+tmr.dur > e.Now && r.at <= items[lid].at {
+					lag := clk(tmr.created).Add(time.Duration(tmr.dur)).Sub(r.at).Nanoseconds()
+					if lag > 0 && lag <= tmr.created-tmr.window && clk(tmr.created).Add(time.Duration(tmr.dur)).After(clk(e.Now)) && !r.at.After(items[lid].at) {
 						accepted = append(accepted, "late-by-clock-advance-in-arm-window")
 						continue
 					}
 				}
-				if items[lid].at <= e.Now {
-					add("due-item-not-served", "event %d: at quiescence id=%d (at %d) is due at clock %d but was not executed", i, lid, items[lid].at, e.Now)
+				if !items[lid].at.After(clk(e.Now)) {
+					add("due-item-not-served", "event %d: at quiescence id=%d (at %s) is due at clock %s but was not executed", i, lid, items[lid].at.UTC(), clk(e.Now))
 				}
 			}
 		case "hang":
